@@ -9,7 +9,7 @@ Open Scope Z_scope.
 (* exceptions, by class; Unmodelled = the interpreter refuses to give a meaning (outside the
    fragment); OutOfFuel = a `while` loop ran longer than the fuel given *)
 Inductive exn := IndexError | TypeError | ValueError | OverflowError | ZeroDivisionError
-               | RuntimeError | KeyError | Unmodelled | OutOfFuel.
+               | RuntimeError | KeyError | ArgumentError | Unmodelled | OutOfFuel.
 
 Inductive val : Type :=
 | VNone
